@@ -45,6 +45,7 @@ def menu(h, tier="quick"):
         if p == h.root:
             out.append(["addnode", p.idx, "natdecl"])
             out.append(["addnode", p.idx, "nullconst"])
+            out.append(["addnode", p.idx, "fnconst"])
         out.append(["insert", "one", p.idx])
         out.append(["insert", "dfg", p.idx])
     vals = META_VALUES if tier == "thorough" else META_VALUES[:2] + META_VALUES[5:]
@@ -81,6 +82,9 @@ def apply(h, m):
             # unbounded nat parameter: the wire format carries an explicit null here
             sig = tys.PolyFuncType([tys.BoundedNatParam(), tys.ListParam(tys.TupleParam([tys.StringParam()]))], tys.FunctionType([], [tys.Tuple()]))
             h.add_node(ops.FuncDecl("natdecl", sig), Node(m[1]))
+        elif m[2] == "fnconst":
+            # a function-valued constant whose body carries metadata, nested in a tuple
+            h.add_const(val.Tuple(val.Function(_frag("dfg")), val.TRUE), Node(m[1]))
         elif m[2] == "nullconst":
             h.add_const(val.Extension("NullPayload", tys.Opaque("T", tys.TypeBound.Copyable, [tys.VariableArg(0, tys.BoundedNatParam())], "e.x"), None, ["e.x"]), Node(m[1]))
         else:
@@ -104,13 +108,22 @@ def apply(h, m):
         raise AssertionError(m)
 
 
-def histories(h_factory, depth, tier="quick"):
-    """All mutation histories up to `depth`; yields (history, hugr)."""
+def histories(h_factory, depth, tier="quick", kinds=None):
+    """All mutation histories up to `depth`; yields (history, hugr).  `kinds` restricts the first
+    level to the first mutation of each listed kind."""
     h0 = h_factory()
     yield [], h0
     if depth == 0:
         return
-    for m in menu(h0, tier):
+    first = menu(h0, tier)
+    if kinds is not None:
+        picked, seen = [], set()
+        for m in first:
+            if m[0] in kinds and m[0] not in seen:
+                seen.add(m[0])
+                picked.append(m)
+        first = picked
+    for m in first:
         h1 = h_factory()
         apply(h1, m)
         yield [m], h1
